@@ -193,6 +193,7 @@ Saturated == Cardinality(running) >= conc
 \* have been classified either way; a true duplicate never runs anyway, so including it costs nothing.)
 WaitingCalls == {x \in DOMAIN mem : mem[x].k = "call" /\ (mem[x].st = "ready" \/ (mem[x].st = "static" /\ mem[x].cls = "dup"))}
 
+HasBase == "base" \in DOMAIN Ev /\ Ev.base # ""
 HStart ==
   /\ IsEvent("HStart")
   /\ LET t == Ev.tag IN
@@ -214,9 +215,13 @@ HStart ==
      /\ Imp("C06", ("done:" \o t) \notin cancelOK)   \* cancelled while it waited for a slot: never runs
      /\ Imp("C01", mem[t].st # "done")          \* exactly one invocation
      /\ Imp("C17", Ev.inb)
+     \* where NewContext is in use every request gets a base context of its own (the harness numbers them): two handlers
+     \* on one base context would be cancelled by each other's base ("ctx:<n>" is the third kind of mark in cancelOK)
+     /\ Imp("C07", HasBase => ("ctx:" \o Ev.base) \notin cancelOK)
+     /\ cancelOK' = IF HasBase THEN cancelOK \cup {"ctx:" \o Ev.base} ELSE cancelOK
      /\ running' = running \cup {t}
      /\ mem' = [mem EXCEPT ![t].st = "run"]
-  /\ UNCHANGED <<conc, push, units, rq, used, stopped, pend, causes, cancelOK, hcanc, cbs, notes, waitRet, rdDone, sendBad, stopOpen>>
+  /\ UNCHANGED <<conc, push, units, rq, used, stopped, pend, causes, hcanc, cbs, notes, waitRet, rdDone, sendBad, stopOpen>>
 
 HCancel ==
   /\ IsEvent("HCancel")
